@@ -258,7 +258,9 @@ static void run_case(Out& out, const std::string& kind, const std::string& paylo
         std::string id = out.add(kind, canon + " | " + fmt_pts(qs));
         Array<Vec2> arr = {};
         for (auto& q : qs) arr.append(Vec2{(double)q.first, (double)q.second});
+        // the result buffer arrives dirty: inside() must write every entry, also for points its pre-filter rejects
         bool* flags = (bool*)allocate_clear(qs.size() + 1);
+        for (size_t qi = 0; qi < qs.size(); qi++) flags[qi] = true;
         inside(arr, parr, flags);
         bool all = all_inside(arr, parr);
         bool any = any_inside(arr, parr);
